@@ -19,6 +19,7 @@ var c04Specs = []famSpec{
 	{Family: "rand-dense", Pool: 30000, PoolQ: 6000},
 	{Family: "lattice", Pool: 30000, PoolQ: 6000},
 	{Family: "rectilinear", Pool: 40000, PoolQ: 4000},
+	{Family: "nested-small", Pool: 40000, PoolQ: 2000},
 	{Family: "nested", FreshQ: 3000, FreshT: 150000},
 	{Family: "rand-mid", Pool: 30000, PoolQ: 3000},
 	{Family: "rand-wide", FreshQ: 3000, FreshT: 150000},
